@@ -1069,27 +1069,12 @@ impl Kanata {
             }
             _ => {}
         }
-        if !self.unmodded_keys.is_empty() {
-            for mod_key in self.unmodded_mods.iter() {
-                let kc = match mod_key {
-                    UnmodMods::LSft => KeyCode::LShift,
-                    UnmodMods::RSft => KeyCode::RShift,
-                    UnmodMods::LAlt => KeyCode::LAlt,
-                    UnmodMods::RAlt => KeyCode::RAlt,
-                    UnmodMods::LCtl => KeyCode::LCtrl,
-                    UnmodMods::RCtl => KeyCode::RCtrl,
-                    UnmodMods::LMet => KeyCode::LGui,
-                    UnmodMods::RMet => KeyCode::RGui,
-                    _ => unreachable!("all bits of u8 should be covered"), // test_unmodmods_bits
-                };
-                cur_keys.retain(|k| *k != kc);
-            }
-            cur_keys.extend(self.unmodded_keys.iter());
-        }
-        if !self.unshifted_keys.is_empty() {
-            cur_keys.retain(|k| !matches!(k, KeyCode::LShift | KeyCode::RShift));
-            cur_keys.extend(self.unshifted_keys.iter());
-        }
+        apply_unmod_unshift_keys(
+            cur_keys,
+            &self.unmodded_keys,
+            self.unmodded_mods,
+            &self.unshifted_keys,
+        );
 
         self.overrides
             .override_keys(cur_keys, &mut self.override_states);
@@ -2262,6 +2247,37 @@ fn apply_speed_modifiers() {
     assert_eq!(apply_mouse_distance_modifiers(10, &vec![200u16, 33u16]), 7);
     // 200% of 3
     assert_eq!(apply_mouse_distance_modifiers(10, &vec![33u16, 200u16]), 6);
+}
+
+/// Applies the active unmod/unshift actions to the list of pressed keys: the modifiers they suppress
+/// are removed and their keys are added. Global overrides are applied to the result.
+fn apply_unmod_unshift_keys(
+    cur_keys: &mut Vec<KeyCode>,
+    unmodded_keys: &[KeyCode],
+    unmodded_mods: UnmodMods,
+    unshifted_keys: &[KeyCode],
+) {
+    if !unmodded_keys.is_empty() {
+        for mod_key in unmodded_mods.iter() {
+            let kc = match mod_key {
+                UnmodMods::LSft => KeyCode::LShift,
+                UnmodMods::RSft => KeyCode::RShift,
+                UnmodMods::LAlt => KeyCode::LAlt,
+                UnmodMods::RAlt => KeyCode::RAlt,
+                UnmodMods::LCtl => KeyCode::LCtrl,
+                UnmodMods::RCtl => KeyCode::RCtrl,
+                UnmodMods::LMet => KeyCode::LGui,
+                UnmodMods::RMet => KeyCode::RGui,
+                _ => unreachable!("all bits of u8 should be covered"), // test_unmodmods_bits
+            };
+            cur_keys.retain(|k| *k != kc);
+        }
+        cur_keys.extend(unmodded_keys.iter());
+    }
+    if !unshifted_keys.is_empty() {
+        cur_keys.retain(|k| !matches!(k, KeyCode::LShift | KeyCode::RShift));
+        cur_keys.extend(unshifted_keys.iter());
+    }
 }
 
 #[cfg(feature = "passthru_ahk")]
